@@ -47,32 +47,32 @@ theorem T16_enforce_unwrap_safe (A : Level) (x : Nat × Nat) (R : Level) (h : Lv
     nextCandidate (A ++ x :: R) x.1 = some (R.head?, (R.head?.map (·.1)).getD x.1) :=
   nextCandidate_at A x R h
 
-/-- **T16.update_tree_closed** — `ops::update` maps a well-formed tree to a well-formed tree: unless the batch empties the
-whole tree, `newTree` — the new index, the leaves the leaf stage left (the first one under the zero key), the page numbers
-the update wrote them to — satisfies `TreeOK` again: the leaves are `LeafUpd.DbOK` (sorted, within the size limits, every
+/-- **T16.update_tree_closed** — `ops::update` maps EVERY well-formed tree (the empty one included) to a well-formed tree
+(possibly the empty one): `newTree` — the new index, the leaves the leaf stage left (the first one under the zero key), the
+page numbers the update wrote them to — satisfies `TreeOK` again: the leaves are `LeafUpd.DbOK` (sorted, within the size limits, every
 key in `[separator, next separator)`), none is empty, the first separator is the zero key, the branch level is
 `BranchUpd.DbOK kfReal` and lists exactly (separator, page number) of the leaves. -/
 theorem T16_update_tree_closed {V : Type} [LeafUpd.CellSize V] (pagesOf : V → List Nat) (lnFresh bbnFresh : Nat → Nat)
     (a0 : Nat) (t : Tree V) (cs : List (Nat × Option (V × Bool))) (lo : Nat) (ht : TreeOK t)
     (hcs : LeafUpd.ChOK (2 ^ 256) lo cs) (ha0 : cs = [] → a0 = 0) :
     ∃ o, update LeafUpd.sepReal BranchUpd.kfReal pagesOf lnFresh bbnFresh false t cs a0 = some o ∧
-      (o.leafLevel ≠ [] → TreeOK (newTree t lnFresh a0 o)) ∧
+      TreeOK (newTree t lnFresh a0 o) ∧
       LeafUpd.flat (newTree t lnFresh a0 o).leaves = applyAll (LeafUpd.flat t.leaves) cs := by
   obtain ⟨o, e, h⟩ := update_spec pagesOf lnFresh bbnFresh a0 t cs lo ht hcs ha0
-  refine ⟨o, e, fun hne => update_closed pagesOf lnFresh bbnFresh a0 t cs lo ht hcs o h hne, ?_⟩
+  refine ⟨o, e, update_closed pagesOf lnFresh bbnFresh a0 t cs lo ht hcs o h, ?_⟩
   show LeafUpd.flat (newLeaves o.leafLevel) = _
   rw [flat_newLeaves, h.content]
 
-/-- **T16.update_invariant** — any history of updates (any batches, any allocators, each update on the tree the previous
-one left, none of which empties the tree): the tree stays `TreeOK`, and its content is the original content with all
-batches applied in order. -/
+/-- **T16.update_invariant** — EVERY history of updates (any batches, any allocators, each update on the tree the previous
+one left; the history may start from the empty tree, empty the tree and refill it): the tree stays `TreeOK`, and its
+content is the original content with all batches applied in order. -/
 theorem T16_update_invariant {V : Type} [LeafUpd.CellSize V] (pagesOf : V → List Nat) (t t' : Tree V)
     (css : List (List (Nat × Option (V × Bool)))) (ht : TreeOK t) (h : Rounds pagesOf t css t') :
     TreeOK t' ∧ LeafUpd.flat t'.leaves = css.foldl (fun l cs => applyAll l cs) (LeafUpd.flat t.leaves) :=
   rounds_invariant pagesOf t t' css ht h
 
 /-- non-vacuity: a round exists on the three-leaf tree of `Props/C01_StageGlue.lean` (the batch empties the first and the
-third leaf; the tree is not emptied) -/
+third leaf) -/
 example : TreeOK C01.exTree ∧ ∃ t', Rounds (fun _ : Nat => []) C01.exTree [C01.exBatch] t' := by
   refine ⟨C01.exTree_ok, ?_⟩
   have hcs : LeafUpd.ChOK (2 ^ 256) 0 C01.exBatch := by
@@ -81,15 +81,30 @@ example : TreeOK C01.exTree ∧ ∃ t', Rounds (fun _ : Nat => []) C01.exTree [C
     all_goals (intro v o h; cases h)
   obtain ⟨o, e, h⟩ := update_spec (fun _ : Nat => []) (fun k => 100 + k) (fun k => 200 + k) 0 C01.exTree C01.exBatch 0
     C01.exTree_ok hcs (fun _ => rfl)
-  have hne : o.leafLevel ≠ [] := by
-    have hl : (update LeafUpd.sepReal BranchUpd.kfReal (fun _ : Nat => []) (fun k => 100 + k) (fun k => 200 + k) false
-        C01.exTree C01.exBatch 0).map (fun o => o.leafLevel.length) = some 1 := by decide +kernel
-    rw [e] at hl
-    simp only [Option.map_some, Option.some.injEq] at hl
-    intro h0
-    rw [h0] at hl
-    cases hl
-  exact ⟨_, .cons _ _ _ _ _ 0 0 o _ hcs (fun _ => rfl) e hne (.nil _)⟩
+  exact ⟨_, .cons _ _ _ _ _ 0 0 o _ hcs (fun _ => rfl) e (.nil _)⟩
+
+/-- non-vacuity on the empty tree: a store is filled, emptied and refilled — three rounds starting from the empty tree -/
+example : TreeOK C01.emptyTree ∧ ∃ t', Rounds (fun _ : Nat => []) C01.emptyTree
+    [[(7, some (20, false))], [(7, none)], [(3, some (5, false))]] t' := by
+  refine ⟨C01.emptyTree_ok, ?_⟩
+  have hc1 : LeafUpd.ChOK (2 ^ 256) 0 [((7 : Nat), some ((20 : Nat), false))] :=
+    ⟨by decide, by decide, (by intro v o h; cases h; decide), trivial⟩
+  have hc2 : LeafUpd.ChOK (2 ^ 256) 0 [((7 : Nat), (none : Option (Nat × Bool)))] :=
+    ⟨by decide, by decide, (by intro v o h; cases h), trivial⟩
+  have hc3 : LeafUpd.ChOK (2 ^ 256) 0 [((3 : Nat), some ((5 : Nat), false))] :=
+    ⟨by decide, by decide, (by intro v o h; cases h; decide), trivial⟩
+  obtain ⟨o1, e1, h1⟩ := update_spec (fun _ : Nat => []) (fun k => 100 + k) (fun k => 200 + k) 0 C01.emptyTree _ 0
+    C01.emptyTree_ok hc1 (fun h => by cases h)
+  have t1 := update_closed (fun _ : Nat => []) (fun k => 100 + k) (fun k => 200 + k) 0 C01.emptyTree _ 0
+    C01.emptyTree_ok hc1 o1 h1
+  obtain ⟨o2, e2, h2⟩ := update_spec (fun _ : Nat => []) (fun k => 300 + k) (fun k => 400 + k) 0 _ _ 0 t1 hc2
+    (fun h => by cases h)
+  have t2 := update_closed (fun _ : Nat => []) (fun k => 300 + k) (fun k => 400 + k) 0 _ _ 0 t1 hc2 o2 h2
+  obtain ⟨o3, e3, h3⟩ := update_spec (fun _ : Nat => []) (fun k => 500 + k) (fun k => 600 + k) 0 _ _ 0 t2 hc3
+    (fun h => by cases h)
+  exact ⟨_, .cons _ _ _ _ _ 0 0 o1 _ hc1 (fun h => by cases h) e1
+    (.cons _ _ _ _ _ 0 0 o2 _ hc2 (fun h => by cases h) e2
+      (.cons _ _ _ _ _ 0 0 o3 _ hc3 (fun h => by cases h) e3 (.nil _)))⟩
 
 /-! ## the seeded change `C01-first-leaf-separator-skips-untouched` -/
 
